@@ -176,6 +176,15 @@ NP_KERNELS = [
             param_names=['data_length', 'limits_file'], params=['Int', 'Int'],       # the file name is an opaque token
             externals={'opentxt': ('ext_opentxt', ['Int'], 'L[Int]')})),
     ]),
+    ('utils/datasets.py', 'UtilsDatasets', None, [
+        ('propagate_tmat', dict(lean_name='propagate_tmat_start', ret='L[Int]', not_none=['start'], param_names=['tmat', 'nsteps', 'start'],
+                                params=['L[L[Rat]]', 'Int', 'Int'],
+                                externals={'_propagate_MCMC': ('ext_propagate_echo', [py2lean.CUMMAT, 'Int', 'Int'], 'L[Int]', ['cummat', 'start', 'steps'])})),
+        ('propagate_tmat', dict(lean_name='propagate_tmat_random', ret='L[Int]', consts={'start': None}, param_names=['tmat', 'nsteps'],
+                                params=['L[L[Rat]]', 'Int'],
+                                externals={'_propagate_MCMC': ('ext_propagate_echo', [py2lean.CUMMAT, 'Int', 'Int'], 'L[Int]', ['cummat', 'start', 'steps']),
+                                           'np.random.randint': ('ext_randint', ['Int'], 'Int')})),
+    ]),
     ('md/comparison.py', 'MdCompareApi', None, [
         ('_compare_discretization', dict(
             lean_name='compare_discretization_symmetric', consts={'method': 'symmetric'}, ret='Rat',
@@ -193,6 +202,15 @@ NP_KERNELS = [
             flags={'numba.config.DISABLE_JIT': 'cfg_disable_jit'},
             scalar_calls=['_intersect_array', '_compare_trajs_symmetric', '_compare_trajs_directed'],
             fuel='(traj1_index_trajs_flatten).length + (traj2_index_trajs_flatten).length + 1')),
+        ('compare_discretization', dict(
+            lean_name='compare_discretization_api_symmetric', consts={'method': 'symmetric'}, ret='Rat', param_names=['traj1_index_trajs_flatten', 'traj1_nstates', 'traj1_nframes', 'traj2_index_trajs_flatten', 'traj2_nstates', 'traj2_nframes', 'cfg_disable_jit'], params=['L[Int]', 'Int', 'Int', 'L[Int]', 'Int', 'Int', 'Bool'],
+            objects={'traj1': {'attrs': {'index_trajs_flatten': 'L[Int]', 'nstates': 'Int', 'nframes': 'Int'}}, 'traj2': {'attrs': {'index_trajs_flatten': 'L[Int]', 'nstates': 'Int', 'nframes': 'Int'}}}, flags={'numba.config.DISABLE_JIT': 'cfg_disable_jit'})),
+        ('compare_discretization', dict(
+            lean_name='compare_discretization_api_directed', consts={'method': 'directed'}, ret='Rat', param_names=['traj1_index_trajs_flatten', 'traj1_nstates', 'traj1_nframes', 'traj2_index_trajs_flatten', 'traj2_nstates', 'traj2_nframes', 'cfg_disable_jit'], params=['L[Int]', 'Int', 'Int', 'L[Int]', 'Int', 'Int', 'Bool'],
+            objects={'traj1': {'attrs': {'index_trajs_flatten': 'L[Int]', 'nstates': 'Int', 'nframes': 'Int'}}, 'traj2': {'attrs': {'index_trajs_flatten': 'L[Int]', 'nstates': 'Int', 'nframes': 'Int'}}}, flags={'numba.config.DISABLE_JIT': 'cfg_disable_jit'})),
+        ('compare_discretization', dict(
+            lean_name='compare_discretization_api_other', consts={'method': 'other'}, ret='Rat', param_names=['traj1_index_trajs_flatten', 'traj1_nstates', 'traj1_nframes', 'traj2_index_trajs_flatten', 'traj2_nstates', 'traj2_nframes', 'cfg_disable_jit'], params=['L[Int]', 'Int', 'Int', 'L[Int]', 'Int', 'Int', 'Bool'],
+            objects={'traj1': {'attrs': {'index_trajs_flatten': 'L[Int]', 'nstates': 'Int', 'nframes': 'Int'}}, 'traj2': {'attrs': {'index_trajs_flatten': 'L[Int]', 'nstates': 'Int', 'nframes': 'Int'}}}, flags={'numba.config.DISABLE_JIT': 'cfg_disable_jit'})),
     ]),
     ('md/timescales.py', 'MdTimesApi', None, [
         ('estimate_waiting_times', dict(
@@ -247,6 +265,8 @@ NP_KERNELS = [
 # calls of translated functions of OTHER modules: dotted python name -> (namespace, function)
 XREF = {
     'mh.utils.unique': ('UtilsRelabel', 'unique'),
+    'is_transition_matrix': ('UtilsTests', 'is_transition_matrix'),
+    'row_normalize_matrix': ('MsmNorm', 'row_normalize_matrix'),
     'mh.msm.msm._estimate_markov_model': ('MsmEstimate', 'estimate_markov_model_perm'),
     'utils.tests.is_ergodic': ('UtilsTests', 'is_ergodic'),
     'utils.tests.is_fuzzy_ergodic': ('UtilsTests', 'is_fuzzy_ergodic'),
@@ -391,6 +411,12 @@ class _Prep(ast.NodeTransformer):
                 and isinstance(node.value, ast.Call) and _dotted(node.value.func) in ('StateTraj', 'LumpedStateTraj', 'mh.StateTraj') \
                 and len(node.value.args) == 1 and isinstance(node.value.args[0], ast.Name) and node.value.args[0].id == node.targets[0].id:
             return None          # `trajs = StateTraj(trajs)` : the object is given by its attributes
+        if len(node.targets) == 1 and isinstance(node.targets[0], ast.Tuple) and isinstance(node.value, ast.Tuple) \
+                and len(node.targets[0].elts) == len(node.value.elts) and all(
+                    isinstance(t_, ast.Name) and t_.id in self.objects and isinstance(v_, ast.Call) and _dotted(v_.func) in ('StateTraj', 'mh.StateTraj')
+                    and len(v_.args) == 1 and isinstance(v_.args[0], ast.Name) and v_.args[0].id == t_.id
+                    for t_, v_ in zip(node.targets[0].elts, node.value.elts)):
+            return None          # `a, b = StateTraj(a), StateTraj(b)`
         return self.generic_visit(node)
 
     def visit_Attribute(self, node):
@@ -521,7 +547,7 @@ def prepare(node, sig):
         if isinstance(st, ast.If) and isinstance(st.test, ast.Constant) and not st.test.value and not st.orelse:
             continue
         body.append(st)
-        if isinstance(st, ast.Return):
+        if isinstance(st, (ast.Return, ast.Raise)):
             break
     names = sig.get('param_names')
     if names is not None:
@@ -535,6 +561,7 @@ class NpFn(Fn):
 
     def __init__(self, node, sig, module_fns, src_file, ns='', cls=None):
         self.cls = cls
+        self.orig_params = [a.arg for a in node.args.args if a.arg != 'self'] + [a.arg for a in node.args.kwonlyargs]
         node = prepare(node, sig)
         self.lean_name = sig.get('lean_name')
         self.xcalls = sig.get('xcalls', {})
@@ -1052,6 +1079,18 @@ class NpFn(Fn):
                 if dtn and 'float' in dtn:
                     return pre, '(npFullLike2 %s (0 : Rat))' % c, ('L', ('L', 'Rat'))
                 raise Unsupported('%s: empty_like dtype' % self.name)
+            if name == 'np.cumsum' and len(args) == 1 and 'axis' in kw and ast.literal_eval(kw['axis']) in (1, -1):
+                c, t = sub(args[0])
+                if t != ('L', ('L', 'Rat')):
+                    raise Unsupported('%s: cumsum(axis=1) of %s' % (self.name, t))
+                return pre, '((%s).map npCumsum)' % c, t
+            if name == 'np.tile' and len(args) == 2 and isinstance(args[1], ast.Tuple) and len(args[1].elts) == 2 \
+                    and isinstance(args[1].elts[1], ast.Constant) and args[1].elts[1].value == 1:
+                c, t = sub(args[0])
+                n_, tn = sub(args[1].elts[0])
+                if not is_vec(t) or tn != 'Int':
+                    raise Unsupported('%s: np.tile form' % self.name)
+                return pre, '(List.replicate (%s).toNat %s)' % (n_, c), ('L', t)
             if name == 'np.cumsum' and len(args) == 1:
                 c, t = sub(args[0])
                 if t == ('L', 'Int'):
@@ -1321,22 +1360,58 @@ class NpFn(Fn):
                 callee = REGISTRY[tuple(self.xcalls[name])]
             elif isinstance(e.func, ast.Name) and e.func.id in self.mod:
                 callee = self.mod[e.func.id]
+            elif isinstance(e.func, ast.Name) and any(n2 == self.ns and f_.name == e.func.id for (n2, _k), f_ in REGISTRY.items()):
+                callee = [f_ for (n2, _k), f_ in REGISTRY.items() if n2 == self.ns and f_.name == e.func.id][0]
             elif name in XREF and XREF[name] in REGISTRY:
                 callee = REGISTRY[XREF[name]]
             elif name in self.xcalls and tuple(self.xcalls[name]) in REGISTRY:
                 callee = REGISTRY[tuple(self.xcalls[name])]
             if callee is not None and getattr(callee, 'dialect', '') == 'np':
+                # the callee may exist in several specialisations (constant parameters): take the one whose constants match this call
+                variants = [f_ for (n2, _k), f_ in REGISTRY.items() if n2 == callee.ns and f_.name == callee.name]
+                by_orig = {}
+                for p_, a_ in zip(callee.orig_params, args):
+                    by_orig[p_] = a_
+                for k_, v_ in kw.items():
+                    by_orig[k_] = v_
+                if len(variants) > 1:
+                    def fits(f_):
+                        for cn, cv in f_.sig.get('consts', {}).items():
+                            if cn in by_orig and not (isinstance(by_orig[cn], ast.Constant) and by_orig[cn].value == cv):
+                                return False
+                        return True
+                    fitting = [f_ for f_ in variants if fits(f_)]
+                    if callee not in fitting and len(fitting) == 1:
+                        callee = fitting[0]
                 actual = {}
-                for p, a in zip(callee.params, args):
-                    actual[p] = a
-                for k, v in kw.items():
-                    cc = dict(callee.sig.get('consts', {}))
-                    cc.update(callee.sig.get('kwargs_consts') or {})
-                    if k in cc and isinstance(v, ast.Constant) and v.value == cc[k]:
-                        continue          # the callee was translated for exactly this value of the keyword
-                    if k not in callee.params or k in actual:
-                        raise Unsupported('%s: call of %s with keyword %s' % (self.name, callee.name, k))
-                    actual[k] = v
+                cc = dict(callee.sig.get('consts', {}))
+                cc.update(callee.sig.get('kwargs_consts') or {})
+                objs = callee.sig.get('objects', {})
+                positional = (callee.params == callee.orig_params)
+                if positional:
+                    for p, a in zip(callee.params, args):
+                        actual[p] = a
+                    for k, v in kw.items():
+                        if k in cc and isinstance(v, ast.Constant) and v.value == cc[k]:
+                            continue          # the callee was translated for exactly this value of the keyword
+                        if k not in callee.params or k in actual:
+                            raise Unsupported('%s: call of %s with keyword %s' % (self.name, callee.name, k))
+                        actual[k] = v
+                else:
+                    # prepared callee: map by the ORIGINAL parameter names; objects are passed attribute by attribute (same-named
+                    # variables of the caller), constants must match the specialisation
+                    for k, v in by_orig.items():
+                        if k in cc:
+                            if not (isinstance(v, ast.Constant) and v.value == cc[k]):
+                                raise Unsupported('%s: call of %s with %s not equal to the specialisation' % (self.name, callee.name, k))
+                            continue
+                        if k in objs:
+                            if not (isinstance(v, ast.Name) and v.id == k):
+                                raise Unsupported('%s: object argument %s of %s must be passed under the same name' % (self.name, k, callee.name))
+                            continue
+                        if k not in callee.params:
+                            raise Unsupported('%s: call of %s with argument %s' % (self.name, callee.name, k))
+                        actual[k] = v
                 cs = []
                 for p, pt in zip(callee.params, callee.ptypes):
                     if p in actual:
@@ -1345,8 +1420,8 @@ class NpFn(Fn):
                     elif p in callee.defaults:
                         c, t = callee.const_default(callee.defaults[p])
                         cs.append(self.coerce(c, t, pt))
-                    elif p.startswith('cfg_') and p in self.env:
-                        cs.append(p)             # the configuration flag of the caller is the configuration flag of the callee
+                    elif p in self.env and (p.startswith('cfg_') or any(p.startswith(o_ + '_') for o_ in callee.sig.get('objects', {}))):
+                        cs.append(self.lname(p))     # configuration flags and object attributes: the caller's variable of the same name
                     else:
                         raise Unsupported('%s: call of %s misses argument %s' % (self.name, callee.name, p))
                 head = 'MsmVerif.Gen.%s.%s' % (callee.ns, callee.lname_def())
@@ -1840,11 +1915,13 @@ def run_module(ns, relfile, emitted, ext_impl):
 EXT_IMPL = {'ext_peq': 'MsmVerif.GenCodec.oracleVec "peq"', 'ext_argsort': 'MsmVerif.GenCodec.oracleTable "argsort"',
             'ext_left_eigenvectors': 'MsmVerif.GenCodec.oracleEig "eig"',
             'ext_choice': 'MsmVerif.GenCodec.oracleConst "choice"',
+            'ext_randint': 'MsmVerif.GenCodec.oracleConst "randint"',
             'ext_estimate': 'MsmVerif.GenCodec.oracleTableInt "estimate"',
             'ext_estimate_plain': 'MsmVerif.GenCodec.oracleTableInt "estimate"',
             'ext_geomspace_rounded': 'MsmVerif.GenCodec.oracleConst3 "times"',
             'ext_argsort_int': 'MsmVerif.GenCodec.oracleConst "argsort"',
             'ext_propagate': 'MsmVerif.GenCodec.oracleConst3 "propagate"',
+            'ext_propagate_echo': 'MsmVerif.GenCodec.oracleEchoCummat "propagate"',
             'ext_opentxt': 'MsmVerif.GenCodec.oracleConst "opentxt"',
             'ext_get_cummat': 'MsmVerif.GenCodec.oracleConst "cummat"',
             'ext_estimator': 'MsmVerif.GenCodec.oracleConst5 "estimator"'}
